@@ -363,13 +363,13 @@ class UidValidity(Harness):
 class ViewReplay(Harness):
     """Replaying the EXISTS/EXPUNGE a session received always gives a legal view that converges to the server list (C01)."""
 
-    scope = "2 sessions on one 5-message mailbox; scripted histories mixing STORE \\Deleted, EXPUNGE by the other session, external deliveries, NOOP / FETCH by the observer; all orders of (expunge, delivery, observer command)"
+    scope = "2 sessions on one 5-message mailbox; scripted histories mixing STORE \\Deleted, EXPUNGE by the other session, external deliveries, NOOP / FETCH / re-SELECT by the observer; all orders of (expunge, delivery, observer command)"
     exhaustive = False
 
     def inputs(self, tier, seed):
         import itertools
 
-        steps = ["B:expunge1", "deliver", "A:noop", "B:expunge-last", "A:fetch1", "B:append"]
+        steps = ["B:expunge1", "deliver", "A:noop", "B:expunge-last", "A:fetch1", "B:append", "A:reselect"]
         n = 3 if tier == "quick" else 4
         for k in range(1, n + 1):
             for hist in itertools.permutations(steps, k):
@@ -426,6 +426,14 @@ class ViewReplay(Harness):
                                 return f"after {step}: {err}"
                         continue
                     s = a if who == "A" else b
+                    if what == "reselect":
+                        # SELECT of the mailbox that is already selected: the view starts again from the new snapshot
+                        views[s.proxy.name] = {"count": 0}
+                        err = replay(s.proxy.name, await s.cmd("SELECT inbox"))
+                        err = err or replay(b.proxy.name, b.proxy.take())
+                        if err:
+                            return f"during {step}: {err}"
+                        continue
                     if what == "expunge1":
                         cmds = ["STORE 1 +FLAGS.SILENT (\\Deleted)", "EXPUNGE"]
                     elif what == "expunge-last":
